@@ -157,6 +157,72 @@ def contract_check(ctx, scenarios):
     return bad
 
 
+
+def crash_sig(stderr):
+    i = stderr.find("panic: ")
+    if i >= 0:
+        line = stderr[i:].split("\n")[0]
+        for pat, sig in (("retire called twice", "internal-panic:retire-twice"),
+                         ("non-idle when already done", "internal-panic:non-idle-when-done"),
+                         ("incoming count is already zero", "internal-panic:incoming-underflow"),
+                         ("close of closed channel", "internal-panic:double-close")):
+            if pat in line:
+                return sig
+        return "internal-panic:other"
+    if "fatal error:" in stderr:
+        return "runtime-fatal"
+    return "process-crash"
+
+
+def replay_schedules(ctx, h, sched_lines, parallel=8):
+    """Run `rpch replay-worker` over the schedules; a worker that dies is restarted behind the schedule
+    that killed it.  Returns the list of replay results (dicts)."""
+    import subprocess
+    import concurrent.futures as cf
+    env = core.goenv()
+    chunks = [sched_lines[i::parallel] for i in range(parallel)]
+
+    def work(k, lines):
+        out = []
+        base = k * 1000000
+        pos = 0
+        while pos < len(lines):
+            p = subprocess.run([h, "replay-worker", str(base + pos)], input=("\n".join(lines[pos:]) + "\n").encode(),
+                               stdout=subprocess.PIPE, stderr=subprocess.PIPE, env=env, timeout=3000)
+            got = [json.loads(l) for l in p.stdout.decode(errors="replace").split("\n") if l.startswith("{")]
+            out += got
+            pos += len(got)
+            if p.returncode == 0:
+                break
+            if pos < len(lines):
+                sch = json.loads(lines[pos])
+                names = ["%s(%s)" % (s_["a"], s_["arg"]) for s_ in sch["h"]]
+                out.append({"scenario": base + pos, "outcome": "crash", "schedule": names, "events": [],
+                            "violations": [{"sig": crash_sig(p.stderr.decode(errors="replace")),
+                                            "detail": "worker died replaying the schedule: " + p.stderr.decode(errors="replace")[-1200:]}]})
+                pos += 1
+        return out
+
+    with cf.ThreadPoolExecutor(max_workers=parallel) as ex:
+        res = []
+        for part in ex.map(lambda a: work(*a), list(enumerate(chunks))):
+            res += part
+    return res
+
+
+def maximal_schedules(path):
+    lines = [l for l in open(path).read().split("\n") if l]
+    keys = []
+    for l in lines:
+        hh = json.loads(l)["h"]
+        keys.append(tuple((s_["a"], json.dumps(s_["arg"])) for s_ in hh))
+    pre = set()
+    for k in keys:
+        for n in range(1, len(k)):
+            pre.add(k[:n])
+    return [l for l, k in zip(lines, keys) if k not in pre], len(lines)
+
+
 def run(ctx):
     import concurrent.futures as cf
     quick = ctx.tier == "quick"
@@ -187,8 +253,12 @@ def run(ctx):
     scs.sort(key=lambda r: r["scenario"])
     if not scs:
         raise core.Inconclusive("no scenarios executed")
-    if any(sc.get("overloaded") for sc in scs):
-        raise core.Inconclusive("machine overloaded while a liveness cap was hit; verdict withheld")
+    # a liveness cap hit while the machine is overloaded proves nothing: those scenarios' hang reports are
+    # dropped (exit 2 at the end unless something else was found)
+    overloaded = [sc["scenario"] for sc in scs if sc.get("overloaded")] if not os.environ.get("VERIF_IGNORE_LOAD") else []
+    for sc in scs:
+        if sc["scenario"] in overloaded:
+            sc["violations"] = [v for v in sc.get("violations") or [] if not v["sig"].startswith(("hang:", "await-never"))]
     nev = sum(len(sc.get("events") or []) for sc in scs)
     ctx.log("executed %d scenarios, %d events" % (len(scs), nev))
 
@@ -199,6 +269,10 @@ def run(ctx):
         cfgs = []
     pool = cf.ThreadPoolExecutor(max_workers=8)
     mc = [pool.submit(tlcmod.run_tlc, "rpc", "JsonRpcConn", cfg, workers=4, timeout_s=1500) for cfg in cfgs]
+    sched_path = os.path.join(ctx.scratch, "sched.ndjson")
+    sched_cfg = "JsonRpcSched_quick.cfg"
+    sched_fut = None if ctx.replay else pool.submit(tlcmod.run_tlc, "rpc", "JsonRpcSched", sched_cfg, workers=4,
+                                                    timeout_s=1500, cases_path=sched_path)
 
     # 2. harness-level observations (caps, crashes)
     good = []
@@ -260,8 +334,65 @@ def run(ctx):
             idx = [k for k, s2 in enumerate(todo) if s2["scenario"] == sc_no][0]
             accepted += idx
             todo = todo[idx + 1:]
-    ctx.evaluations = len(scs)
-    ctx.validated = len(good)
+    # 5. schedule replay: behaviours of the design model stepped through the real Connection
+    nrep = 0
+    if sched_fut is not None:
+        import random
+        r = sched_fut.result()
+        ctx.tlc_runs.append({"module": "JsonRpcSched", "cfg": sched_cfg, "generated": r.generated,
+                             "distinct": r.distinct, "cases": r.cases, "wall_s": round(r.wall, 1), "violated": r.violated})
+        ctx.states += r.distinct
+        ctx.transitions += r.generated
+        ctx.log("TLC JsonRpcSched/%s: distinct=%d schedules=%d %.1fs ok=%s" % (sched_cfg, r.distinct, r.cases, r.wall, r.ok))
+        if not r.ok:
+            raise core.Inconclusive("schedule export failed (%s):\n%s" % (r.violated, r.log_tail[-3000:]))
+        leaf, total = maximal_schedules(sched_path)
+        rng = random.Random(ctx.seed)
+        pick = leaf if not quick else rng.sample(leaf, min(len(leaf), 400))
+        reps = replay_schedules(ctx, h, pick)
+        nrep = len(reps)
+        outc = {}
+        rep_traces = []
+        for rp in reps:
+            o = rp.get("outcome", "?")
+            cls = o.split(":")[0]
+            outc[cls] = outc.get(cls, 0) + 1
+            case = {"schedule": rp.get("schedule")}
+            for v in rp.get("violations") or []:
+                if rp.get("overloaded") and v["sig"].startswith("hang:") and not os.environ.get("VERIF_IGNORE_LOAD"):
+                    overloaded.append(rp.get("scenario"))
+                    continue
+                ctx.add_violation(v["sig"], v["detail"] + " | schedule=" + json.dumps(rp.get("schedule")), case)
+            if cls in ("diverged", "mismatch"):
+                sig = "replay-" + o
+                ctx.drift[sig] = ctx.drift.get(sig, 0) + 1
+                if ctx.drift[sig] == 1:
+                    ctx.notes.append("DRIFT %s: %s | schedule=%s" % (sig, rp.get("detail"), json.dumps(rp.get("schedule"))))
+            if rp.get("events") and not (rp.get("violations") or []):
+                rep_traces.append(rp)
+        ctx.extra["schedules_exported"] = total
+        ctx.extra["schedules_maximal"] = len(leaf)
+        ctx.extra["schedules_replayed"] = nrep
+        ctx.extra["replay_outcomes"] = outc
+        ctx.extra["replay_steps_compared"] = sum(rp.get("executed", 0) for rp in reps)
+        ctx.log("replayed %d schedules: %s" % (nrep, outc))
+        if outc.get("ok", 0) == 0:
+            raise core.Inconclusive("no schedule could be replayed: %s" % outc)
+        # the traces of the replays go through the contract spec too
+        for k, rp in enumerate(rep_traces):
+            rp["scenario"] = 10000000 + k
+        bad2 = contract_check(ctx, rep_traces)
+        byno2 = {rp["scenario"]: rp for rp in rep_traces}
+        for inv, sc_no, line in bad2:
+            rp = byno2[sc_no]
+            ctx.add_violation("contract:" + inv, "replayed schedule violates %s at event %d | schedule=%s" % (
+                inv, line, json.dumps(rp.get("schedule"))), {"schedule": rp.get("schedule")})
+        if reps:
+            ok1 = [rp for rp in reps if rp.get("outcome") == "ok"][:1]
+            for rp in ok1:
+                ctx.samples.append({"replayed_schedule": rp.get("schedule"), "steps_compared": rp.get("executed")})
+    ctx.evaluations = len(scs) + nrep
+    ctx.validated = len(good) + nrep
     for sc in good:
         ctx.nontrivial.add(json.dumps([o.split("(")[0].split("#")[0] for o in sc.get("ops") or []]))
     for sc in good[:3]:
@@ -281,6 +412,8 @@ def run(ctx):
         if not r.ok:
             raise core.Inconclusive("design model check failed on %s (%s):\n%s" % (cfg, r.violated, r.log_tail[-3000:]))
     pool.shutdown()
+    if overloaded and not ctx.viol:
+        raise core.Inconclusive("liveness cap hit in scenarios %s while the machine was overloaded; verdict withheld" % overloaded[:5])
     ctx.rule = ("seeded concurrent scenarios (<=3 calls, <=2 notifications, <=3 peer requests with sync/err/async "
                 "handlers, Cancel, Close, hang-up, write faults) against a real Connection; every scenario's event "
                 "trace is validated by TLC against JsonRpcContract (verdict) and JsonRpcTrace/JsonRpcConn (design); "
